@@ -280,6 +280,15 @@ def round8_cases(thorough):
     return [{"mode": "mapping_live", "k": k} for k in ((0, 1, 3, 6) if thorough else (0, 1, 3))] + [{"mode": "tunnel_reregister", "side": sd} for sd in (0, 1)]
 
 
+def round9_cases(thorough):
+    """a close notification between RegisterTunnel and Start inside handleConnection (slot released exactly once); the copy
+    loop leaving through its context check while the source keeps streaming (counter == delivered)"""
+    cs = [{"mode": "mapping_window", "k": k, "reads": m, "side": sd} for k, m in ((1, 1), (3, 2), (3, 7), (2, 0)) for sd in (0, 1)]
+    cs += [{"mode": "copy_ctx_exit", "side": 0, "point": p, "reads": r} for p, r in ((1, 100), (100, 9000), (7, 15000))]
+    cs += [{"mode": "copy_ctx_exit", "side": 1, "point": 50, "reads": 12000}]
+    return cs
+
+
 def throttle_cases(thorough):
     """a bandwidth-limited bridge (100 B/s .. 1 KB/s) closed while a copy direction holds one chunk far larger than the bucket"""
     base = [(100, 4096, 1), (1024, 32768, 2)] + ([(256, 8192, 3), (1000, 16384, 1)] if thorough else [])
@@ -324,7 +333,7 @@ def zenc(z):
 
 
 def case_value(c, o, tunnel_fixed, traffic_fixed, stream_fixed=True, start_ctx_first=True, start_spawns=3, writer_holds=False, flags=None):
-    flags = flags or {"lock_first": True, "mapping_early_return": False, "bridge_fast_path": False, "remove_first": True, "chan_buffered": True, "dispose_copies": True, "throttle_ctx": True, "stats_swap": True, "cleanup_guarded": True}
+    flags = flags or {"lock_first": True, "mapping_early_return": False, "bridge_fast_path": False, "remove_first": True, "chan_buffered": True, "dispose_copies": True, "throttle_ctx": True, "stats_swap": True, "cleanup_guarded": True, "cp_ctx": True, "cp_tail": True, "cp_defer": False, "cp_threshold": 1048576}
     m = c["mode"]
     if m == "tunnel_start":
         sd = o["steps_done"]
@@ -335,6 +344,9 @@ def case_value(c, o, tunnel_fixed, traffic_fixed, stream_fixed=True, start_ctx_f
         return [5, start_ctx_first, start_spawns, sd, [o["state"], o["on_closed"], 1 if o["start_ok"] else 0, 1 if o["left"] else 0]]
     if m == "session_overlap":
         return [10, flags["remove_first"], bool(c["side"]), [bool(c["reads"] >> i & 1) for i in range(max(1, c["k"]))], o["stream_closes"]]
+    if m == "copy_ctx_exit":
+        delivered = o["delivered"] // max(1, c["point"])
+        return [17, flags["cp_ctx"], flags["cp_tail"], flags["cp_defer"], flags["cp_threshold"], c["point"], delivered, c["side"] == 0, o["counter"], o["total"]]
     if m == "mapping_stats":
         return [15, flags["stats_swap"], c["point"], c["reads"], bool(c["side"]), zenc(o["up_sent"]), zenc(o["local_sent"])]
     if m == "bridge_hung_backend":
@@ -420,14 +432,16 @@ def run(ctx, only_cases=None):
               "bridge_fast_path": flag("BridgeCloseFastPath"), "remove_first": flag("CloseConnectionRemovesFirst"),
               "chan_buffered": flag("DisposeResultChanBuffered"), "dispose_copies": flag("DisposeAllCopiesOrder"),
               "throttle_ctx": flag("ThrottleWaitUsesContext"), "stats_swap": flag("MappingStatsSwaps"),
-              "cleanup_guarded": flag("BridgeCleanupReportGuarded")}
+              "cleanup_guarded": flag("BridgeCleanupReportGuarded"), "cp_ctx": flag("CopyFlushCtx"), "cp_tail": flag("CopyFlushTail"),
+              "cp_defer": flag("CopyFlushDefer"),
+              "cp_threshold": int(re.search(r"Definition BatchUpdateThreshold : N := (\d+)%N\.", gen_text).group(1))}
     start_spawns = int(re.search(r"Definition TunnelStartSpawns : nat := (\d+)\.", gen_text).group(1))
     broken = None
     try:
         pinfo = vlib.coq_properties("C16")
         vlib.coq_make(["Proofs/SideC16.vo"])
         vlib.proof_coverage(ctx, pinfo, "make -C coq Properties/C16.vo Proofs/SideC16.vo && coqc Properties/C16.v (Print Assumptions audit)",
-                            extra_obligations=19)
+                            extra_obligations=21)
     except vlib.Broken as b:
         broken = b
     ibin = None
@@ -453,7 +467,7 @@ def run(ctx, only_cases=None):
         cases += start_close_cases(ctx.rng, thorough)
         cases += stall_cases(thorough)
         cases += queue_cases() + fault_cases(ctx.rng, thorough) + attach_cases(ctx.rng, thorough)
-        cases += resmgr_cases(ctx.rng, thorough) + overlap_cases(thorough) + throttle_cases(thorough) + round6_cases(thorough) + round8_cases(thorough)
+        cases += resmgr_cases(ctx.rng, thorough) + overlap_cases(thorough) + throttle_cases(thorough) + round6_cases(thorough) + round8_cases(thorough) + round9_cases(thorough)
         cases += race_cases(ctx.rng, thorough)
     is_instr = lambda c: c["mode"] == "tunnel_sched" or (c["mode"] == "tunnel_start" and c["point"] >= 0)
     plain = [c for c in cases if not is_instr(c)]
@@ -484,7 +498,7 @@ def run(ctx, only_cases=None):
     # ---- model vs implementation on the deterministic modes ----
     # stream_gate reads=1 parks inside io.ReadFull, which holds its own copy of the reader: outside the model's granularity
     det = [(c, o) for c, o in done if c["mode"] in ("dispose_hist", "tunnel_seq", "tunnel_sched", "traffic_gate", "stream_gate",
-                                                     "tunnel_start", "bridge_stall", "stream_queue", "fault_close", "bridge_attach", "session_overlap", "res_mgr", "bridge_throttle", "mapping_stats", "bridge_hung_backend")
+                                                     "tunnel_start", "bridge_stall", "stream_queue", "fault_close", "bridge_attach", "session_overlap", "res_mgr", "bridge_throttle", "mapping_stats", "bridge_hung_backend", "copy_ctx_exit") and ("counter" in o or c["mode"] != "copy_ctx_exit")
            and ("up_sent" in o or c["mode"] != "mapping_stats") and ("returned" in o or c["mode"] != "bridge_hung_backend")
            and o.get("key") != "bridge-throttle-setup" and ("start_returned" in o or c["mode"] != "bridge_throttle")
            and not (c["mode"] == "res_mgr" and not c.get("timeout_path") and not c.get("during") and any(e["op"] not in ("register", "unregister", "dispose_all") or e.get("a", 0) >= 100 for e in c["events"]))
@@ -544,7 +558,7 @@ def run(ctx, only_cases=None):
             nontriv.add(json.dumps(c, sort_keys=True))
         elif c["mode"] == "bridge_stall" or (c["mode"] == "stream_queue" and o.get("b_parked_on_lock")):
             nontriv.add(json.dumps(c, sort_keys=True))
-        elif (c["mode"] == "mapping_live" and c["k"] > 0) or c["mode"] == "tunnel_reregister" or c["mode"] in ("mapping_stats", "bridge_hung_backend") or c["mode"] == "session_overlap" or (c["mode"] == "res_mgr" and len(c["events"]) >= 3) or (c["mode"] == "bridge_throttle" and o.get("parked_in_throttle")):
+        elif (c["mode"] == "mapping_window" and c["reads"] != 0) or c["mode"] == "copy_ctx_exit" or (c["mode"] == "mapping_live" and c["k"] > 0) or c["mode"] == "tunnel_reregister" or c["mode"] in ("mapping_stats", "bridge_hung_backend") or c["mode"] == "session_overlap" or (c["mode"] == "res_mgr" and len(c["events"]) >= 3) or (c["mode"] == "bridge_throttle" and o.get("parked_in_throttle")):
             nontriv.add(json.dumps(c, sort_keys=True))
         elif c["mode"] == "fault_close" and c["reads"] != 0:
             nontriv.add(json.dumps(c, sort_keys=True))
